@@ -162,7 +162,11 @@ def explore(pid, tier, seed, verdict, full=True):
     lines.append("TW %d" % nth)
     for i in range((3 if tier == "quick" else 12) if full else 1):
         lines.append("T %d %d" % (nth, 40 if tier == "quick" else 150))
+    for i in range(3 if tier == "quick" else 30):
+        lines.append("R %d" % i)            # re-entrant factory (also for C14's cache clause)
     if full:
+        for i in range(3 if tier == "quick" else 30):
+            lines.append("X %d" % i)        # throwing factory
         lines.append("H 8 %d" % (20000 if tier == "quick" else 400000))
     bf = os.path.join(work, "behaviours.txt")
     open(bf, "w").write("\n".join(lines) + "\n")
@@ -261,9 +265,9 @@ def explore(pid, tier, seed, verdict, full=True):
                 else:
                     key = k
                     fac = res_bad = False
-                relevant = (pid == "C20" and ((k == "Attack" and fac) or k in ("SFacEnter", "LStep"))) or \
-                           (pid == "C13" and ((k == "Attack" and res_bad) or k in ("LStep", "SRet", "SFacEnter", "SHammer", "FirstUse"))) or \
-                           (pid == "C14" and k in ("LStep", "SRet", "SFacEnter"))      # the name cache is invisible
+                relevant = (pid == "C20" and ((k == "Attack" and fac) or k in ("SFacEnter", "LStep", "AfterThrow"))) or \
+                           (pid == "C13" and ((k == "Attack" and res_bad) or k in ("LStep", "SRet", "SFacEnter", "SHammer", "FirstUse", "Reentrant"))) or \
+                           (pid == "C14" and k in ("LStep", "SRet", "SFacEnter", "Reentrant"))      # the name cache is invisible
                 if pid == "C14":
                     key = "cache:" + key
                 if relevant:
